@@ -15,6 +15,7 @@ import (
 	"path/filepath"
 	"sort"
 	"strings"
+	"time"
 
 	"github.com/LemoFoundationLtd/lemochain-core/common"
 	"github.com/LemoFoundationLtd/lemochain-core/common/crypto"
@@ -75,10 +76,11 @@ func open(kind string, root common.Hash, db *store.TrieDatabase, lim int) (handl
 
 // ---------------------------------------------------------------- universe
 
-var keyIDs = []string{"k1", "k2", "k3", "k4", "k5", "k6"}
+var keyIDs = []string{"k0", "k1", "k2", "k3", "k4", "k5", "k6"}
 
 // plain keys: shared nibble prefixes, k4 a strict prefix of k1..k3 (mirrors spec/MCTrieKV.tla McPath)
 var plainKeys = map[string][]byte{
+	"k0": {}, // the empty key: a strict prefix of every key, its value sits in slot 16 of the root node
 	"k1": {0x12, 0x34}, "k2": {0x12, 0x35}, "k3": {0x12, 0x45}, "k4": {0x12}, "k5": {0x13, 0x34}, "k6": {0x72, 0x34},
 	"g1": {0x12, 0x36}, "g2": {0x99}, // never written: proofs of absence
 }
@@ -110,7 +112,7 @@ func init() {
 	want := []struct {
 		id string
 		n  int
-	}{{"k2", 3}, {"k3", 2}, {"k4", 2}, {"k5", 1}, {"k6", 0}, {"g1", 2}, {"g2", 0}}
+	}{{"k2", 3}, {"k3", 2}, {"k4", 2}, {"k5", 1}, {"k6", 0}, {"k0", 0}, {"g1", 2}, {"g2", 0}}
 	used := map[string]bool{}
 	for _, w := range want {
 		for i := 1; ; i++ {
@@ -241,9 +243,26 @@ func content(kv tla.Value) string {
 
 func (a *adapter) closeDB() {
 	if a.cdb != nil {
+		a.drain() // no background writer is left behind when the directory is re-opened or removed
 		a.cdb.Close()
 		a.cdb = nil
 	}
+}
+
+// drain waits until BeansDB's background writer has moved every queued item into the bitcask files, so that
+// "restart" is a clean shutdown (what a crash in the middle of that pipeline does is C08's subject, not C17's).
+func (a *adapter) drain() {
+	q := a.cdb.Beansdb.Queue
+	for i := 0; i < 5000; i++ {
+		q.IndexRW.RLock()
+		n := len(q.Index)
+		q.IndexRW.RUnlock()
+		if n == 0 {
+			return
+		}
+		time.Sleep(time.Millisecond)
+	}
+	engine.Failf("BeansDB write queue did not drain within 5 s")
 }
 
 func (a *adapter) Close() {
